@@ -22,12 +22,17 @@ def make_table_utility(values_by_rows, null, mean=0.0, fail=None, record=None):
                 warnings.warn("scripted", RuntimeWarning)
             if f == "UserWarning":
                 warnings.warn("scripted", UserWarning)
+            # benign arithmetic that UNDERFLOWS (numpy ignores underflow by default; it neither raises nor warns): a utility whose
+            # numbers get tiny has not failed
+            import numpy as np
+            tiny = np.float64(1e-200) * np.float64(1e-200) + np.exp(np.float64(-800.0))
             r = UtilityResult()
-            r.score = values_by_rows[rows]
+            r.score = values_by_rows[rows] + float(tiny)
             return r
 
         def null_score(self, *a, **k):
-            return null
+            # an integral null score may well be a Python int: the scores of the coalitions stay real numbers
+            return int(null) if float(null) == int(null) else null
 
         def mean_score(self, *a, **k):
             return mean
